@@ -100,11 +100,15 @@ def api_case(ts, tp, rows, mu, eps, space, std_out, cache):
         if isinstance(e, (KeyboardInterrupt, MemoryError)):
             raise
         return dict(ok=False, exc=type(e).__name__, msg=str(e)[:200])
-    _, fit, lik = out
+    dts, fit, lik = out
     post = fit.node_posteriors()
     G = len(tp)
     arr = np.array(post.tolist(), dtype=float).reshape(ts.num_nodes, G)
-    return dict(ok=True, post=arr, lik=float(lik))
+    meta = {}
+    for n in dts.nodes():
+        if isinstance(n.metadata, dict) and "mn" in n.metadata:
+            meta[n.id] = (float(n.metadata["mn"]), float(n.metadata["vr"]))
+    return dict(ok=True, post=arr, lik=float(lik), meta=meta)
 
 
 def case_replay(shape, muts, perm, grid, kind, rows, mu, eps, space, std_out, cache):
@@ -141,6 +145,17 @@ def check_case(ts, tp, rows, mu, eps, space, std_out, cache, replay, res, stats,
                 f"node {u} posterior {got.tolist()} != exact {want.tolist()} (index {i}, {space}, outside_standardize={std_out})",
                 replay))
             break
+        # posterior mean / variance written to the node metadata (core.mean_var)
+        if u in api["meta"]:
+            tpa = np.asarray(tp, dtype=float)
+            mn = float(np.sum(want * tpa))
+            vr = float(np.sum(want * (tpa - mn) ** 2))
+            gm, gv = api["meta"][u]
+            if not (dc.close(gm, mn, rtol=1e-8, atol=1e-9) and dc.close(gv, vr, rtol=1e-7, atol=1e-9)):
+                res.violations.append(Violation(
+                    f"posterior-mean-var-differs:{space}",
+                    f"node {u} metadata (mn, vr) = ({gm!r}, {gv!r}) but the exact posterior has ({mn!r}, {vr!r})", replay))
+                break
     if not want_corr:
         return None
     pr = dc.make_priors(ts, tp, rows)
